@@ -14,6 +14,7 @@ def fmt(**kw):
              prs=False, cri=False, crf=False, ror=False)
     for k, v in kw.items():
         f[k] = B(v) if k in ("indent", "prefix") and isinstance(v, str) else v
+    f["mlinit"] = f["ml"]      # an Encoder is created with all its options
     return f
 
 # call alphabet: structural and literal tokens; strings a, b, empty, HTML-sensitive, invalid UTF-8;
@@ -42,4 +43,22 @@ FMTS = [
     fmt(prs=True, html=True, ai=True),
     fmt(cri=True, crf=True),
     fmt(ror=True),
+]
+
+
+def G(entry, **kw):
+    """caller options for the Format family: only the given fields are passed explicitly"""
+    g = fmt(**kw)
+    g["set"] = set(kw.keys())
+    return {"entry": entry, "g": g}
+
+
+FMT_CASES = [
+    G("format"), G("compact"), G("indent"), G("canon"),
+    G("format", ml=True), G("format", indent="  ", prefix=" "), G("format", sac=1, sacm=1),
+    G("format", ml=True, sacm=1, sac=0), G("format", html=True, js=True), G("format", prs=True),
+    G("format", prs=True, html=True), G("format", ai=True, ad=True), G("format", ai=True, prs=True, js=True),
+    G("format", cri=True), G("format", crf=True), G("format", ror=True), G("format", ror=True, ad=True),
+    G("compact", prs=False), G("compact", ad=False), G("indent", ml=False), G("indent", indent=" "),
+    G("canon", ror=False), G("canon", ad=True, ai=True), G("canon", ml=True), G("canon", html=True),
 ]
